@@ -58,7 +58,7 @@ def replay(verdict, exe, res, seed=0, tag="print", sigprefix="print"):
                               "%s :: printed text differs at line %d: expected %r observed %r" % (
                                   desc, k + 1, b["lines"][k] if k < len(b["lines"]) else "<end>", got[k] if k < len(got) else "<end>"),
                               {"behaviour": b, "observed": got})
-        if pl[0]["out"] != 0:
+        if pl[0]["out"] != g["begin"]["out"]:
             verdict.violation("%s:stdout:%s" % (sigprefix, desc), "%s :: stray output" % desc, {"behaviour": b})
     verdict.cov["evaluations"] += len(meta)
     verdict.cov["distinct_nontrivial"] += len(distinct)
